@@ -9,7 +9,7 @@ PROP = {
     "id": "C02",
     "props_file": "coq/C02/Props.v",
     "props_module": "C02.Props",
-    "coq_targets": ["Gen/KernelsCheck.vo", "C02/Model.vo", "C02/Laws.vo", "C02/Proofs.vo", "C02/ProofsOp.vo", "C02/Props.vo"],
+    "coq_targets": ["Gen/KernelsCheck.vo", "C02/Model.vo", "C02/Laws.vo", "C02/Proofs.vo", "C02/ProofsOp.vo", "C02/Interleaved.vo", "C02/Props.vo"],
     "uses_kernels": True,
     "allowed_axioms": [],
     "suites": [{
@@ -44,17 +44,18 @@ PROP = {
              "directed tagged scenarios come first. distinct = distinct sha1 of the case term; non-trivial = at least one accepted share-moving "
              "operation and >= 2 operation kinds"),
     "explanation": ("Pure laws (mint never over-issues, floor/ceil bounds, totality inside the guards, first delegation, round trip <= x and >= x-1 under "
-                    "rate_ok, bystander +-1) are Coq theorems about the Gallina definitions that tools/kernel2v GENERATES from x/delegation/keeper/share.go "
+                    "rate_ok, bystander +-1, and their lift to arbitrary interleavings of foreign delegations/undelegations) are Coq theorems about the Gallina definitions that tools/kernel2v GENERATES from x/delegation/keeper/share.go "
                     "on every run, so a change of the Go kernels re-checks them; the translation itself is validated by running the real Go functions "
                     "and the generated definitions on the same boundary inputs, and a frozen snapshot of the last good translation reports the concrete "
                     "input on which a kernel's behaviour changed. Ledger invariants (totalShare = sum of shares, staker list = stakers with non-zero "
-                    "share without duplicates, amount <= 10^18*shares i.e. rate_ok reachable, operatorShare = sum over associated stakers for histories "
-                    "whose prefix scans are exact) are proved by induction over ALL operation lists of the executable model C02/Model.v; the model is tied "
+                    "share without duplicates, amount <= 10^18*shares i.e. rate_ok reachable, operatorShare = sum over associated stakers for all histories "
+                    "over well-formed ('/'-free) staker ids) are proved by induction over ALL operation lists of the executable model C02/Model.v; the model is tied "
                     "to the code by differential execution (every raw share field, list, association and withdrawable amount compared after every "
                     "operation) and the invariant booleans proved of the model are evaluated on the implementation's dumps, together with the bystander "
-                    "and round-trip bounds on the values the real TokensFromShares reports. Two clauses are FALSE of the faithful model and of the code "
-                    "(C02_operator_share_refuted, C02_zero_pool_refuted): both are reproduced by directed scenarios on the real keepers and listed as "
-                    "known findings with a narrow match."),
+                    "and round-trip bounds on the values the real TokensFromShares reports. One clause is FALSE of the faithful model and of the code "
+                    "(C02_zero_pool_refuted): it is reproduced by a directed scenario on the real keepers and listed as a known finding with a narrow "
+                    "match. The operator-share clause was false before the repair of the staker-id prefix scan (fix commit in /repo); the former "
+                    "refutation witness is kept as a regression Example and the clause is now the full theorem C02_operator_share."),
     "trusted_base": KERNEL_TB + [
         "kernel translator tools/kernel2v (Go AST -> Gallina, standard library only) and its fixed method table onto Base/IntDec.v + Base/IntDec2.v; "
         "validated on every run by suite kernels (real Go function vs generated definition on the same inputs, incl. panics and error names)",
